@@ -36,8 +36,9 @@ an admissible schedule from two fresh connections in which both sides are `Onlin
 rounds (clock +1 s, both tick, clock +0.5 s, both tick, the datagrams emitted by the ticks delivered
 in order) reach quiescence; every tick of the round is at or after the reported deadline
 (`timers_due6/7`) and the two sides hold the same token (`tokens_agree6/7`), for every reachable
-world.  Partial: the handshake rounds (`handshake6_fair` / `handshake7_fair`) are not composed with
-it, and datagrams emitted while a delivery is processed are not delivered by the round.
+world.  `C02_fair_progress6_partial` / `C02_fair_progress7_partial` strengthen the round: every datagram sent
+during the suffix is delivered, the answers to resend requests included.  Partial only in that the
+handshake rounds (`handshake6_fair` / `handshake7_fair`) are not composed with it.
 -/
 namespace Tw.Props.C02
 open Tw.Conn Tw.Time
@@ -256,6 +257,26 @@ theorem C02_timed_progress7_partial (sched : List (Move proto7)) (w : World prot
     ∃ w', timedRounds () 4 w = some w' ∧ w'.quiescent :=
   P7.timed_progress7 sched w hadm hrun ha hb
 
+/-- **0.6, the full fair suffix**: as above, but every datagram sent during the suffix is delivered —
+the ticks' datagrams *and* the answers to resend requests emitted while a delivery is processed
+(`fairRoundT`: delivery cursors per direction; leftovers of the previous round first).  The only
+remaining reason for `_partial` is that both sides are already `Online` (handshake rounds:
+`handshake6_fair`). -/
+theorem C02_fair_progress6_partial (tl : Bool) (draws : List Nat) (alt : P6.Alt) (sched : List (Move (proto6 tl)))
+    (w : World (proto6 tl)) (hadm : admissible (World.init (proto6 tl)) sched = true)
+    (hrun : NetSim.run (World.init (proto6 tl)) sched = some w) {ta tb : Option Nat} {oa ob : Tw.Conn.Online}
+    (ha : w.a.conn.state = .online ta oa) (hb : w.b.conn.state = .online tb ob) :
+    ∃ s', fairRoundsT draws alt 4 (FairState.start w) = some s' ∧ s'.w.quiescent :=
+  P6.fair_progress6 tl draws alt sched w hadm hrun ha hb
+
+/-- **0.7, the full fair suffix** -/
+theorem C02_fair_progress7_partial (draws : List Nat) (sched : List (Move proto7)) (w : World proto7)
+    (hadm : admissible (World.init proto7) sched = true) (hrun : NetSim.run (World.init proto7) sched = some w)
+    {oa ta ob tb : Nat} {ca cb : Tw.Conn.Online} (ha : w.a.conn.state = .online oa ta ca)
+    (hb : w.b.conn.state = .online ob tb cb) :
+    ∃ s', fairRoundsT draws () 4 (FairState.start w) = some s' ∧ s'.w.quiescent :=
+  P7.fair_progress7 draws sched w hadm hrun ha hb
+
 /-- in every reachable world (no admissibility needed) an online endpoint and its pending-or-online
 peer hold the same token, so neither drops the other's datagrams -/
 theorem tokens_agree6 (tl : Bool) (sched : List (Move (proto6 tl))) (w : World (proto6 tl))
@@ -284,6 +305,9 @@ example : admissible (World.init (proto6 false)) (busy6 false) = true := by deci
 example : (((NetSim.run (World.init (proto6 false)) (busy6 false)).bind (timedRounds .exact 4)).map World.settled) = some true := by
   decide +kernel
 example : (((NetSim.run (World.init proto7) busy7).bind (timedRounds () 4)).map World.settled) = some true := by
+  decide +kernel
+example : (((NetSim.run (World.init (proto6 false)) (busy6 false)).bind fun w =>
+    fairRoundsT (P := proto6 false) [] P6.Alt.exact 4 (FairState.start w)).map fun s => s.w.settled) = some true := by
   decide +kernel
 
 end Timed
